@@ -7,7 +7,10 @@ CONSTANTS
   MaxLen = 2
   Fates = {"ok", "fatal", "retry1", "retryx"}
   MaxFail = 1
-  WorldTx = TRUE
+  WorldTx = {"W"}
+  EnsureTx = FALSE
+  ImplWR = "required"
+  CancelOn = FALSE
   RetryCount = 2
   MaxOps = 60
 INVARIANT Emit
